@@ -326,13 +326,13 @@ func NewOn(cfg Cfg, ds storage.OpenFGADatastore, path string) (*Srv, error) {
 	// for a wrong one, so unless a check asks for a specific deadline the server gets generous ones.
 	lod, lud, rqt := cfg.LODeadline, cfg.LUDeadline, cfg.ReqTimeout
 	if lod == 0 {
-		lod = 3 * time.Minute
+		lod = 40 * time.Second
 	}
 	if lud == 0 {
-		lud = 3 * time.Minute
+		lud = 40 * time.Second
 	}
 	if rqt == 0 {
-		rqt = 3 * time.Minute
+		rqt = 40 * time.Second
 	}
 	opts = append(opts, server.WithListObjectsDeadline(lod), server.WithListUsersDeadline(lud), server.WithRequestTimeout(rqt))
 	if cfg.LOMax != 0 {
@@ -914,4 +914,22 @@ func (s *Srv) ReadAll(store string) ([]*openfgav1.TupleKey, error) {
 		}
 	}
 	return nil, errors.New("ReadAll: too many pages")
+}
+
+// Watch runs f in a goroutine and waits at most d for it. It returns false when f has not returned
+// in time (the goroutine is abandoned): callers treat that as "hung", never as an answer.
+func Watch(d time.Duration, f func()) bool {
+	done := make(chan struct{})
+	go func() {
+		defer close(done)
+		f()
+	}()
+	t := time.NewTimer(d)
+	defer t.Stop()
+	select {
+	case <-done:
+		return true
+	case <-t.C:
+		return false
+	}
 }
